@@ -72,6 +72,8 @@ func LabelVal(tok string) string {
 		return "q\"u\\o\nte"
 	case "nonutf8":
 		return "\xffz"
+	case "pct": // not a separator in any export format - but a verb to any formatting function it is handed to
+		return "r%d%%x%s"
 	}
 	return tok
 }
@@ -209,6 +211,25 @@ func Build(s *metrics.Store, ms []Metric) ([]*metrics.Metric, error) {
 			return nil, err
 		}
 		out = append(out, m)
+	}
+	// every other metric is then registered once more, as a reload of its program does: same declaration, no label
+	// values of its own - Store.Add replaces the old registration and hands its label values (the very datums) over.
+	// The abstract store is the same; what walks the store afterwards must still meet every metric exactly once.
+	for i := len(out) - 1; i >= 0; i-- {
+		if (i+len(out))%2 == 0 {
+			continue
+		}
+		old := out[i]
+		twin := metrics.NewMetric(old.Name, old.Program, old.Kind, old.Type, old.Keys...)
+		twin.Source = old.Source
+		twin.Buckets = append([]datum.Range{}, old.Buckets...)
+		if old.Buckets == nil {
+			twin.Buckets = nil
+		}
+		if err := s.Add(twin); err != nil {
+			return nil, err
+		}
+		out[i] = twin
 	}
 	return out, nil
 }
